@@ -37,7 +37,7 @@ type c26SeqCase struct {
 
 type c26Ev struct {
 	Adv  int64  `json:"advance"` // clock advance before the event
-	Kind string `json:"kind"`    // conn | pooltimeout | nil | plain | sql | closed | wrapped | deadline
+	Kind string `json:"kind"`    // conn | pooltimeout | nil | plain | sql | closed | wrapped | deadline | hc-down | hc-up (status mark by the health checker)
 	Via  string `json:"via"`     // get (fake pool error through getConnWithFuse) | direct (TryFuse)
 }
 
@@ -48,6 +48,7 @@ type c26FuseCase struct {
 	Cooldown int64   `json:"cooldown"`
 	Enabled  string  `json:"fuse_enabled"`
 	Base     int64   `json:"base"`
+	Manual   bool    `json:"manual_status"` // true: the node is only marked up/down by hc-up / hc-down events (and by the breaker)
 	Events   []c26Ev `json:"events"`
 }
 
@@ -176,8 +177,10 @@ func c26RunFuse(c c26FuseCase) (clause string, at int, detail string) {
 	node, pool := hcNode(1, 1, "dc", true, clock)
 	d := &DBInfo{Nodes: []*NodeInfo{node}}
 	s := &Slice{Namespace: "c26", FuseEnabled: c.Enabled, FuseWindowSize: c.W, FuseMinErrorCount: c.Min, FuseCooldownPeriod: c.Cooldown}
-	initErr := hcEnableFuse(s, d)
-	installed := s.IsFuseEnabled() && initErr == nil
+	hcEnableFuse(s, d) // what proxy/server.parseSlices does; an init error leaves the node without policy
+	// reference, independent of the code under test: fuse_enabled is case-insensitive
+	// (models.verifyFuseEnabled lower-cases), only "off" disables
+	installed := strings.ToLower(c.Enabled) != "off"
 	ref := &hcRefWindow{w: c.W, min: c.Min}
 	var scripted error
 	pool.getFn = func(p *hcPool) (PooledConnect, error) {
@@ -189,7 +192,18 @@ func c26RunFuse(c c26FuseCase) (clause string, at int, detail string) {
 	for i, ev := range c.Events {
 		clock.Advance(ev.Adv)
 		clock.SetNsec(int64(i%7) * 142857142)
-		node.SetStatusUp() // the harness plays "recovered" so that every event is observable
+		switch ev.Kind {
+		case "hc-down":
+			node.SetStatusDown()
+			continue
+		case "hc-up":
+			node.SetStatusUp()
+			continue
+		}
+		if !c.Manual {
+			node.SetStatusUp() // the harness plays "recovered" so that every event is observable
+		}
+		beforeUp := node.IsStatusUp()
 		err := c26Err(ev.Kind, pool.addr)
 		if ev.Via == "get" {
 			scripted = err
@@ -200,14 +214,17 @@ func c26RunFuse(c c26FuseCase) (clause string, at int, detail string) {
 		} else {
 			s.TryFuse(node, err)
 		}
-		want := false
+		fire := false
 		if installed && c26Counts(ev.Kind) {
-			want = ref.record(clock.Sec())
+			fire = ref.record(clock.Sec()) // every connection error counts, whatever the node's status
 		}
+		want := fire || !beforeUp
 		got := node.IsStatusDown()
 		if got != want {
 			switch {
-			case !installed || c.W <= 0 || c.Min <= 0:
+			case !got && !beforeUp:
+				clause = "error-event-marked-node-up"
+			case got && (!installed || c.W <= 0 || c.Min <= 0):
 				clause = "disabled-fired"
 			case got && !c26Counts(ev.Kind):
 				clause = "other-error-counted"
@@ -216,7 +233,7 @@ func c26RunFuse(c c26FuseCase) (clause string, at int, detail string) {
 			default:
 				clause = "missed-at-threshold"
 			}
-			return clause, i, fmt.Sprintf("event %d (%s via %s) at t=%d: node down=%v, reference count of connection errors in (t-%d,t] = %d, min=%d, policy installed=%v", i, ev.Kind, ev.Via, clock.Sec(), got, c.W, ref.count(clock.Sec()), c.Min, installed)
+			return clause, i, fmt.Sprintf("event %d (%s via %s) at t=%d: node was up=%v before, down=%v after; reference count of connection errors in (t-%d,t] = %d, min=%d, fuse_enabled=%q (enabled=%v)", i, ev.Kind, ev.Via, clock.Sec(), beforeUp, got, c.W, ref.count(clock.Sec()), c.Min, c.Enabled, installed)
 		}
 	}
 	return "", -1, ""
@@ -403,7 +420,16 @@ func c26FuseSig(c c26FuseCase, clause string, at int) string {
 	if c.Cooldown > 0 {
 		rec = "hard"
 	}
-	return fmt.Sprintf("tryfuse/%s/%s/%s/enabled=%s/%s", clause, kind, via, strings.ToLower(c.Enabled), rec)
+	sig := fmt.Sprintf("tryfuse/%s/%s/%s/enabled=%s/%s", clause, kind, via, strings.ToLower(c.Enabled), rec)
+	if c.Enabled != strings.ToLower(c.Enabled) {
+		sig += "/mixed-case-spelling"
+	}
+	for _, ev := range c.Events {
+		if ev.Kind == "hc-down" || ev.Kind == "hc-up" {
+			return sig + "/with-status-marks"
+		}
+	}
+	return sig
 }
 
 func TestVerif_C26(t *testing.T) {
@@ -493,6 +519,11 @@ func TestVerif_C26(t *testing.T) {
 			Part string `json:"part"`
 		}
 		kit.LoadReplay(p, &probe)
+		if probe.Part == "burst" || probe.Part == "tickover" || probe.Part == "wiring" || (probe.Part == "tryfuse" && strings.Contains(p, "part_")) {
+			rec.Eval(1)
+			rec.Set("replay", "a case of another part of this check")
+			return
+		}
 		if probe.Part == "group" {
 			var c c26GroupCase
 			kit.LoadReplay(p, &c)
@@ -580,7 +611,7 @@ func TestVerif_C26(t *testing.T) {
 	r = kit.SubRand(kit.Seed(), "C26/tryfuse")
 	kinds := []string{"conn", "conn", "conn", "pooltimeout", "nil", "plain", "sql", "closed", "deadline", "wrapped"}
 	for i, n := 0, kit.N(6000, 150000); i < n; i++ {
-		c := c26FuseCase{Part: "tryfuse", W: int64(r.Range(1, 8)), Min: int64(r.Range(1, 6)), Base: 1700000000 + int64(r.Intn(1000)), Enabled: []string{"on", "ON", "", "on", "off", "OFF"}[r.Intn(6)]}
+		c := c26FuseCase{Part: "tryfuse", W: int64(r.Range(1, 8)), Min: int64(r.Range(1, 6)), Base: 1700000000 + int64(r.Intn(1000)), Enabled: []string{"on", "ON", "", "on", "oN", "off", "OFF", "Off", "oFf"}[r.Intn(9)], Manual: r.Chance(1, 3)}
 		if r.Bool() {
 			c.Cooldown = int64(r.Range(1, 30))
 		}
@@ -598,6 +629,9 @@ func TestVerif_C26(t *testing.T) {
 			ev := c26Ev{Kind: kinds[r.Intn(len(kinds))], Via: "get"}
 			if r.Chance(1, 3) {
 				ev.Via = "direct"
+			}
+			if c.Manual && r.Chance(1, 4) {
+				ev.Kind = []string{"hc-down", "hc-up", "hc-up"}[r.Intn(3)]
 			}
 			switch r.Intn(6) {
 			case 0, 1, 2:
@@ -618,6 +652,26 @@ func TestVerif_C26(t *testing.T) {
 			rec.Sample(c)
 		}
 	}
+	// (3b) directed: errors that arrive while the health checker has the node marked down
+	// still count; every valid spelling of the switch
+	for _, sp := range []string{"on", "ON", "oN", "", "off", "OFF", "Off", "oFf"} {
+		for _, cool := range []int64{0, 10} {
+			for _, min := range []int64{2, 3, 4} {
+				evs := []c26Ev{{Kind: "hc-down"}}
+				for k := int64(0); k < min-1; k++ {
+					evs = append(evs, c26Ev{Kind: "conn", Via: "get", Adv: k % 2})
+				}
+				evs = append(evs, c26Ev{Kind: "hc-up"}, c26Ev{Kind: "conn", Via: "get", Adv: 1})
+				runFuse(c26FuseCase{Part: "tryfuse", W: 8, Min: min, Cooldown: cool, Enabled: sp, Base: 1700000000, Manual: true, Events: evs})
+				burst := []c26Ev{}
+				for k := int64(0); k < min+1; k++ {
+					burst = append(burst, c26Ev{Kind: "conn", Via: "direct"})
+				}
+				runFuse(c26FuseCase{Part: "tryfuse", W: 8, Min: min, Cooldown: cool, Enabled: sp, Base: 1700000000, Events: burst})
+			}
+		}
+	}
+
 	// (4) replica groups built by the real InitFuseRecoveryPolicy, errors interleaved
 	r = kit.SubRand(kit.Seed(), "C26/group")
 	var crossKeys int64
